@@ -120,6 +120,7 @@ type Unit struct {
 	trusted  map[string]bool
 	inlined  map[string]bool
 	qSide     *[]Term // when set, closed-heap facts about reads that mention a bound variable are recorded here
+	goalEval  bool    // a goal is being evaluated: outermost existentials get witness hints
 	qNest     int     // nesting depth of quantifiers while a specification is evaluated
 	ixCollect *[]Term // when set, slice index terms met while evaluating a specification are recorded here
 	freshN   int
